@@ -200,6 +200,11 @@ impl<SystemType : System> SysCache<SystemType> {
 impl Clone for FileState { #[verifier::external_body] fn clone(&self) -> (r: FileState) ensures r == *self { unimplemented!() } }
 impl Clone for FileInfo { #[verifier::external_body] fn clone(&self) -> (r: FileInfo) ensures r == *self { unimplemented!() } }
 
+// ASSUMED (R4): `Vec::get` (slice get)
+#[verifier::external_body]
+fn vec_get<'a>(v: &'a Vec<FileResolution>, i: usize) -> (r: Option<&'a FileResolution>)
+    ensures i < v@.len() ==> r == Some(&v@[i as int]), i >= v@.len() ==> r is None
+{ v.get(i) }
 // ---------- R4: iterator-adapter expressions replaced by named helpers (ASSUMED: element-wise, order preserving) ----------
 #[verifier::external_body]
 fn clone_ticket_vec(tickets: &Vec<Ticket>) -> (r: Vec<Ticket>) ensures r@ == tickets@
@@ -483,6 +488,29 @@ impl Blob {
 //@ end
 
 impl Blob {
+
+//@ extract blob.rs impl /^Blob$/ fn forget_replaced_file_states
+//@ props C18 C07 C01 C05
+//@ rewrite 1 /for \(i, info\) in self\.file_infos\.iter_mut\(\)\.enumerate\(\)/ => for i in 0..self.file_infos.len()
+//@ insert after 1/1 /for \(i, info\) in self\.file_infos\.iter_mut\(\)\.enumerate\(\)\s*\{/ => let info = &mut self.file_infos[i];
+//@ rewrite 1 /match resolutions\.get\(i\)/ => match vec_get(resolutions, i)
+//@ spec
+        requires old(self).all_rem_ok(),
+        ensures final(self).paths() =~= old(self).paths(), final(self).file_infos@.len() == old(self).file_infos@.len(),
+            forall|k: int| 0 <= k < old(self).file_infos@.len() ==> (#[trigger] final(self).file_infos@[k]).path@ == old(self).file_infos@[k].path@,
+            // what is remembered afterwards is still valid (REM_OK), and for a replaced file it is the empty state, never the old one   //# O-D-forget-replaced [C18,C07]
+            final(self).all_rem_ok(),
+            forall|k: int| 0 <= k < old(self).file_infos@.len() ==> (
+                ((k < resolutions@.len() && resolutions@[k] is AlreadyCorrect) ==> (#[trigger] final(self).file_infos@[k]).file_state == old(self).file_infos@[k].file_state)
+                && (!(k < resolutions@.len() && resolutions@[k] is AlreadyCorrect) ==> final(self).file_infos@[k].file_state.timestamp == 0)),
+//@ loop 1 invariant
+            invariant self.file_infos@.len() == old(self).file_infos@.len(), self.all_rem_ok(),
+                forall|k: int| 0 <= k < self.file_infos@.len() ==> (#[trigger] self.file_infos@[k]).path@ == old(self).file_infos@[k].path@,
+                forall|k: int| i <= k < self.file_infos@.len() ==> (#[trigger] self.file_infos@[k]).file_state == old(self).file_infos@[k].file_state,
+                forall|k: int| 0 <= k < i ==> (
+                    ((k < resolutions@.len() && resolutions@[k] is AlreadyCorrect) ==> (#[trigger] self.file_infos@[k]).file_state == old(self).file_infos@[k].file_state)
+                    && (!(k < resolutions@.len() && resolutions@[k] is AlreadyCorrect) ==> self.file_infos@[k].file_state.timestamp == 0)),
+//@ end
 
     spec fn all_absent(&self, w: World) -> bool { forall|k: int| 0 <= k < self.file_infos@.len() ==> !w.files.contains_key(#[trigger] self.file_infos@[k].path@) }
 
